@@ -39,3 +39,85 @@ def cvc5_check(z3_solver, timeout_s=40):
             os.unlink(path)
         except OSError:
             pass
+
+
+# ----------------------------------------------------------------------------- abstraction
+import z3 as _z3
+
+_MULR = _z3.Function("MUL!r", _z3.RealSort(), _z3.RealSort(), _z3.RealSort())
+_DIVR = _z3.Function("DIV!r", _z3.RealSort(), _z3.RealSort(), _z3.RealSort())
+_MULI = _z3.Function("MUL!i", _z3.IntSort(), _z3.IntSort(), _z3.IntSort())
+_DIVI = _z3.Function("DIV!i", _z3.IntSort(), _z3.IntSort(), _z3.IntSort())
+_MODI = _z3.Function("MOD!i", _z3.IntSort(), _z3.IntSort(), _z3.IntSort())
+
+
+def _is_num(e):
+    return _z3.is_int_value(e) or _z3.is_rational_value(e)
+
+
+def abstract_nl(e, memo):
+    """Replace nonlinear multiplications / divisions by uninterpreted functions (the same
+    function for the same operation everywhere).  If the abstracted query is unsat, so is
+    the original: every model of the original extends to a model of the abstraction by
+    interpreting MUL!/DIV! as the real operations."""
+    k = e.get_id()
+    r = memo.get(k)
+    if r is not None:
+        return r
+    if _z3.is_quantifier(e):
+        n = e.num_vars()
+        vs = [_z3.Const("%s!a%d" % (e.var_name(i), k), e.var_sort(i)) for i in range(n)]
+        rev = list(reversed(vs))
+        body = _z3.substitute_vars(abstract_nl(e.body(), memo), *rev)
+        pats = []
+        for i in range(e.num_patterns()):
+            p = e.pattern(i)
+            pats.append(_z3.MultiPattern(*[_z3.substitute_vars(abstract_nl(c, memo), *rev) for c in p.children()]) if p.num_args() > 1
+                        else _z3.substitute_vars(abstract_nl(p.arg(0), memo), *rev))
+        if e.is_forall():
+            r = _z3.ForAll(vs, body, patterns=pats)
+        elif e.is_exists():
+            r = _z3.Exists(vs, body, patterns=pats)
+        else:
+            r = e
+        memo[k] = r
+        return r
+    if not _z3.is_app(e) or e.num_args() == 0:
+        memo[k] = e
+        return e
+    args = [abstract_nl(a, memo) for a in e.children()]
+    d = e.decl().kind()
+    r = None
+    if d == _z3.Z3_OP_MUL:
+        nn = [a for a in args if not _is_num(a)]
+        if len(nn) >= 2:
+            nums = [a for a in args if _is_num(a)]
+            F = _MULR if _z3.is_real(e) else _MULI
+            acc = nn[0]
+            for a in nn[1:]:
+                acc = F(acc, a)
+            for m in nums:
+                acc = m * acc
+            r = acc
+    elif d == _z3.Z3_OP_DIV and not _is_num(args[1]):
+        r = _DIVR(args[0], args[1])
+    elif d == _z3.Z3_OP_IDIV and not _is_num(args[1]):
+        r = _DIVI(args[0], args[1])
+    elif d == _z3.Z3_OP_MOD and not _is_num(args[1]):
+        r = _MODI(args[0], args[1])
+    if r is None:
+        try:
+            r = e.decl()(*args)
+        except Exception:
+            r = e
+    memo[k] = r
+    return r
+
+
+def check_abstracted(assertions, timeout_ms=5000):
+    memo = {}
+    s = _z3.Solver()
+    s.set("timeout", timeout_ms)
+    for a in assertions:
+        s.add(abstract_nl(a, memo))
+    return s.check()
